@@ -13,7 +13,8 @@
 volatile sig_atomic_t verif_in_call = 0;
 void verif_watchdog_install(void (*f)(void)) { (void) f; }
 
-typedef struct { const char *op; uint8_t v8[8]; uint8_t byte; size_t len; } rc_t;
+typedef struct { const char *op; uint8_t v8[8]; uint8_t byte; size_t len; uint8_t lit[8]; size_t litlen; bool is_lit; } rc_t;
+#define PLEN(c) ((c)->is_lit ? (c)->litlen : (c)->len)
 
 static const size_t LENS[] = {0, 1, 2, 126, 127, 128, 129, 255, 256, 1000, 32766, 32767, 32768, 32769, 65535, 65536, 70000};
 static const int64_t INTS[] = {0, 127, 128, -128, -129, 32767, 32768, -32768, -32769, 2147483647LL, 2147483648LL, -2147483648LL, -2147483649LL, INT64_MAX, INT64_MIN};
@@ -22,8 +23,8 @@ static size_t tok_size(const rc_t *c)
 {
     if (!strcmp(c->op, "int")) { int64_t v; memcpy(&v, c->v8, 8); return 1 + ((v >= -128 && v <= 127) ? 1 : (v >= -32768 && v <= 32767) ? 2 : (v >= -2147483648LL && v <= 2147483647LL) ? 4 : 8); }
     if (!strcmp(c->op, "dbl")) return 9;
-    if (!strcmp(c->op, "str") || !strcmp(c->op, "bytes") || !strcmp(c->op, "name")) return 1 + (c->len <= 127 ? 1 : c->len <= 32767 ? 2 : 4) + c->len;
-    if (!strcmp(c->op, "raw")) return c->len;
+    if (!strcmp(c->op, "str") || !strcmp(c->op, "bytes") || !strcmp(c->op, "name")) return 1 + (PLEN(c) <= 127 ? 1 : PLEN(c) <= 32767 ? 2 : 4) + PLEN(c);
+    if (!strcmp(c->op, "raw")) return PLEN(c);
     return 1;
 }
 
@@ -39,10 +40,28 @@ int main(int argc, char **argv)
     rng_t r = {seed * 77 + 5};
     static const char *OPS[] = {"ob", "oe", "ab", "ae", "t", "f", "int", "int", "dbl", "str", "str", "bytes", "name", "raw"};
     for (int run = 0; run < n; run++) {
-        rc_t calls[12]; int nc = 1 + (int) rng_below(&r, 8); size_t total = 0; size_t bounds[40]; int nb = 0;
+        rc_t calls[14]; int nc = 1 + (int) rng_below(&r, 8); size_t total = 0; size_t bounds[48]; int nb = 0;
+        bool wellformed = (run % 3) == 0;
+        /* well-formed objects: names from a pool in ascending order (embedded NUL, >= 0x80, shared prefixes, a 130-byte one) */
+        static const struct { uint8_t b[4]; size_t n; } POOL[] = {{{0}, 0}, {{0}, 1}, {{'a'}, 1}, {{'a', 0}, 2}, {{'a', 0, 'x'}, 3}, {{'a', 0, 'y'}, 3},
+                                                                     {{'a', 'a'}, 2}, {{'b'}, 1}, {{0x80}, 1}, {{0xff, 0}, 2}};
+        int pool_next = 0, wf_k = 0;
+        if (wellformed) nc = 2 + 2 * (1 + (int) rng_below(&r, 5));
         for (int i = 0; i < nc; i++) {
             rc_t *c = &calls[i]; memset(c, 0, sizeof *c);
             c->op = OPS[rng_below(&r, 14)];
+            if (wellformed) {
+                if (i == 0) c->op = "ob"; else if (i == nc - 1) c->op = "oe";
+                else if ((i % 2) == 1) {       /* a name, ascending */
+                    c->op = "name"; wf_k++;
+                    if (wf_k == 3 && rng_chance(&r, 1, 3)) { c->len = 126 + rng_below(&r, 6); c->byte = 'b'; pool_next = 8; }   /* "bbbb..." sorts after "b" */
+                    else { int left = 10 - pool_next; int skip = (int) rng_below(&r, (uint32_t) (left > 3 ? 3 : (left > 0 ? left : 1)));
+                           int idx = pool_next + skip; if (idx > 9) idx = 9; pool_next = idx + 1;
+                           c->is_lit = true; c->litlen = POOL[idx].n; memcpy(c->lit, POOL[idx].b, POOL[idx].n);
+                           if (idx == 9 && wf_k > 1 && pool_next > 10) { c->is_lit = false; c->len = 200 + (size_t) wf_k; c->byte = 0xff; } }
+                    goto sized;
+                } else { static const char *VOPS[] = {"t", "f", "int", "int", "dbl", "str", "bytes"}; c->op = VOPS[rng_below(&r, 7)]; }
+            }
             if (!strcmp(c->op, "int")) { int64_t v = rng_chance(&r, 2, 3) ? (int64_t) ((uint64_t) INTS[rng_below(&r, 15)] + rng_below(&r, 5) - 2) : (int64_t) rng_next(&r); memcpy(c->v8, &v, 8); }
             else if (!strcmp(c->op, "dbl")) { uint64_t v = rng_next(&r); memcpy(c->v8, &v, 8); }
             else if (!strcmp(c->op, "str") || !strcmp(c->op, "bytes") || !strcmp(c->op, "name") || !strcmp(c->op, "raw")) {
@@ -50,15 +69,16 @@ int main(int argc, char **argv)
                 c->byte = (uint8_t) (!strcmp(c->op, "name") ? 'a' + rng_below(&r, 26) : rng_below(&r, 256));
                 if (!strcmp(c->op, "name") && c->byte == 0) c->byte = 'n';
             }
+sized:
             bounds[nb++] = total;
             size_t ts = tok_size(c);
-            if (c->len > 0 && strcmp(c->op, "raw")) bounds[nb++] = total + ts - c->len;   /* after the descriptor */
+            if (PLEN(c) > 0 && strcmp(c->op, "raw")) bounds[nb++] = total + ts - PLEN(c);   /* after the descriptor */
             total += ts;
         }
         bounds[nb++] = total;
         /* capacity: at / around a piece boundary, or anywhere */
         size_t cap;
-        switch (rng_below(&r, 4)) {
+        switch (wellformed ? rng_below(&r, 2) : rng_below(&r, 4)) {
         case 0: cap = total; break;
         case 1: cap = total + rng_below(&r, 3); break;
         case 2: { size_t b = bounds[rng_below(&r, (uint32_t) nb)]; long d = (long) rng_below(&r, 5) - 2; cap = (long) b + d < 0 ? 0 : (size_t) ((long) b + d); break; }
@@ -70,7 +90,8 @@ int main(int argc, char **argv)
             binson_writer w; memset(&w, 0xEE, sizeof w); binson_writer_init(&w, buf[k], cap);
             for (int i = 0; i < nc; i++) {
                 rc_t *c = &calls[i]; bool ok = false; uint8_t *pl = NULL;
-                if (c->len || !strcmp(c->op, "name") || !strcmp(c->op, "str") || !strcmp(c->op, "bytes") || !strcmp(c->op, "raw")) { pl = (uint8_t *) malloc(c->len + 1); memset(pl, c->byte, c->len); pl[c->len] = 0; }
+                size_t L = PLEN(c);
+                if (L || !strcmp(c->op, "name") || !strcmp(c->op, "str") || !strcmp(c->op, "bytes") || !strcmp(c->op, "raw")) { pl = (uint8_t *) malloc(L + 1); if (c->is_lit) memcpy(pl, c->lit, L); else memset(pl, c->byte, L); pl[L] = 0; }
                 if      (!strcmp(c->op, "ob")) ok = binson_write_object_begin(&w);
                 else if (!strcmp(c->op, "oe")) ok = binson_write_object_end(&w);
                 else if (!strcmp(c->op, "ab")) ok = binson_write_array_begin(&w);
@@ -79,10 +100,10 @@ int main(int argc, char **argv)
                 else if (!strcmp(c->op, "f"))  ok = binson_write_boolean(&w, false);
                 else if (!strcmp(c->op, "int")) { int64_t v; memcpy(&v, c->v8, 8); ok = binson_write_integer(&w, v); }
                 else if (!strcmp(c->op, "dbl")) { double d; memcpy(&d, c->v8, 8); ok = binson_write_double(&w, d); }
-                else if (!strcmp(c->op, "str")) ok = binson_write_string_with_len(&w, (const char *) pl, c->len);
-                else if (!strcmp(c->op, "name")) ok = (run & 1) ? binson_write_name(&w, (const char *) pl) : binson_write_name_with_len(&w, (const char *) pl, c->len);
-                else if (!strcmp(c->op, "bytes")) ok = binson_write_bytes(&w, pl, c->len);
-                else if (!strcmp(c->op, "raw")) ok = binson_write_raw(&w, pl, c->len);
+                else if (!strcmp(c->op, "str")) ok = binson_write_string_with_len(&w, (const char *) pl, L);
+                else if (!strcmp(c->op, "name")) ok = ((run & 1) && memchr(pl, 0, L) == NULL) ? binson_write_name(&w, (const char *) pl) : binson_write_name_with_len(&w, (const char *) pl, L);
+                else if (!strcmp(c->op, "bytes")) ok = binson_write_bytes(&w, pl, L);
+                else if (!strcmp(c->op, "raw")) ok = binson_write_raw(&w, pl, L);
                 free(pl);
                 if (k == 0) rets[i] = ok ? 1 : 0;
             }
@@ -95,7 +116,9 @@ int main(int argc, char **argv)
             rc_t *c = &calls[i];
             fprintf(f, "%s{\"op\":\"%s\",\"v\":[", i ? "," : "", c->op);
             if (!strcmp(c->op, "int") || !strcmp(c->op, "dbl")) for (int k = 0; k < 8; k++) fprintf(f, k ? ",%u" : "%u", c->v8[k]);
-            fprintf(f, "],\"rep\":[%u,%zu]}", c->byte, c->len);
+            fprintf(f, "],\"rep\":[%u,%zu],\"lit\":[", c->byte, c->is_lit ? (size_t) 0 : c->len);
+            if (c->is_lit) for (size_t k = 0; k < c->litlen; k++) fprintf(f, k ? ",%u" : "%u", c->lit[k]);
+            fprintf(f, "]}");
         }
         fprintf(f, "],\"rets\":[");
         for (int i = 0; i < nc; i++) fprintf(f, i ? ",%d" : "%d", rets[i]);
